@@ -87,6 +87,7 @@ pub fn impl_walk(files: &Files, with_positions: bool) -> Json {
         for (id, text) in files {
             p.add_content(id.clone(), text);
         }
+        let stage1 = dump::results(p.verif_parse_results());
         let out = p.validate();
         let mut ids: Vec<&String> = out.keys().collect();
         ids.sort();
@@ -98,7 +99,12 @@ pub fn impl_walk(files: &Files, with_positions: bool) -> Json {
                 walks.push(Json::Arr(vec![Json::s(id.clone()), crate::walk::walk_file(a, text, with_positions)]));
             }
         }
-        Json::obj(vec![("outcome", Json::s("ok")), ("out", dump::results(&out)), ("walks", Json::Arr(walks))])
+        Json::obj(vec![
+            ("outcome", Json::s("ok")),
+            ("stage1", stage1),
+            ("out", dump::results(&out)),
+            ("walks", Json::Arr(walks)),
+        ])
     }));
     match r {
         Ok(j) => j,
@@ -612,6 +618,9 @@ pub fn run(suite: &str, thorough: bool, seed: u64, shard: usize, nshards: usize,
             }
             alphabet.push(HOp::Validate);
             alphabet.push(HOp::AddFile("f_ok.aidl".to_owned(), Some(contents[1].as_bytes().to_vec())));
+            // the same file through a path with a `..` component: a different id (ids are never normalised)
+            std::fs::create_dir_all(dir.join("sub")).unwrap();
+            alphabet.push(HOp::AddFile("sub/../f_ok.aidl".to_owned(), Some(contents[0].as_bytes().to_vec())));
             alphabet.push(HOp::AddFile("f_missing.aidl".to_owned(), None));
             alphabet.push(HOp::AddFile("f_bad.aidl".to_owned(), Some(vec![0x70, 0xff, 0xfe, 0x20])));
             let a = alphabet.len();
@@ -1153,16 +1162,34 @@ pub fn run(suite: &str, thorough: bool, seed: u64, shard: usize, nshards: usize,
                         raw.push_str(eol);
                         (raw, exp)
                     };
+                    // 1-3 ordinary comments (no '/' or '*' in their text): block comments with or
+                    // without text, line comments with text, with blanks only, or empty
+                    let ordinary = |r: &mut Rng| -> String {
+                        let mut o = String::new();
+                        for _ in 0..r.range(1, 3) {
+                            match r.below(7) {
+                                0 => o.push_str("/* note é */"),
+                                1 => o.push_str("/* */"),
+                                2 => o.push_str("/**/"),
+                                3 => o.push_str("// line 中"),
+                                4 => o.push_str("//"),
+                                5 => o.push_str("//  \t"),
+                                _ => o.push_str("/* a\n   b */"),
+                            }
+                            o.push_str(eol);
+                        }
+                        o
+                    };
                     match r.below(6) {
                         0 => (None, None, "no comment"),
-                        1 => (Some(format!("/* plain é comment */{}// line 日本{}", eol, eol)), None, "ordinary comments only"),
+                        1 => (Some(ordinary(r)), None, "ordinary comments only"),
                         2 => {
                             let (raw, exp) = gen_doc(r);
                             (Some(raw), Some(exp), "doc comment")
                         }
                         3 => {
                             let (raw, exp) = gen_doc(r);
-                            (Some(format!("{}/* note é */{}// line 中{}", raw, eol, eol)), Some(exp), "doc then ordinary comments")
+                            (Some(format!("{}{}", raw, ordinary(r))), Some(exp), "doc then ordinary comments")
                         }
                         4 => {
                             let (raw1, _) = gen_doc(r);
